@@ -54,7 +54,7 @@ def concrete_init(model, m, classes, names=None, flags=None, backlinks=True):
         st.heap[(o.path, 'drives')] = els[i + 1] if i + 1 < len(els) else NoneV()
         st.heap[(o.path, 'driven_by')] = (els[i - 1] if i > 0 else NoneV()) if backlinks else NoneV()
         if flags and flags[i] is not None:
-            st.heap[(o.path, 'self_locking')] = Bv(flags[i])
+            st.heap[(o.path, 'self_locking')] = NoneV() if flags[i] == 'none' else Bv(flags[i])
     outs = sx.run(m.node, m.module, 'Powertrain', Ov('self', 'Powertrain', True), {m.node.args.args[1].arg: els[0]}, st)
     return sx, outs, els
 
@@ -74,13 +74,14 @@ def check_concrete(model, rep, m):
     n_cfg = 0
     try:
         for n in range(2, top):
-            for combo in itertools.product(('S', 'WT', 'WF'), repeat=n - 1):
+            # 'WN': a worm gear held by fixed joints only - no mating ever flagged it, its flag is None (short chains only)
+            for combo in itertools.product(('S', 'WT', 'WF', 'WN') if n <= (5 if deep else 4) else ('S', 'WT', 'WF'), repeat=n - 1):
                 for backlinks in ((True, False) if n <= 4 else (True,)):
                     n_cfg += 1
                     classes = ['DCMotor'] + ['SpurGear' if c == 'S' else 'WormGear' for c in combo]
-                    flags = [None] + [None if c == 'S' else c == 'WT' for c in combo]
+                    flags = [None] + [None if c == 'S' else ('none' if c == 'WN' else c == 'WT') for c in combo]
                     sx, outs, els = concrete_init(model, m, classes, flags=flags, backlinks=backlinks)
-                    tag = 'motor -> ' + ' -> '.join({'S': 'spur', 'WT': 'worm(self-locking)', 'WF': 'worm'}[c] for c in combo) + \
+                    tag = 'motor -> ' + ' -> '.join({'S': 'spur', 'WT': 'worm(self-locking)', 'WF': 'worm', 'WN': 'worm(never mated)'}[c] for c in combo) + \
                           ('' if backlinks else ' (driven_by links not set)')
                     done = [o for o in outs if o.kind in ('fall', 'return')]
                     if len(done) != 1 or len(outs) != 1:
